@@ -395,14 +395,12 @@ void ExternalCommand::execute(BuildSystem& system,
   }
   assert(missingInputKeys.empty());
 
-  // If it is legal to simply update the command, then see if we can do so.
-  if (canUpdateIfNewer && hasPriorResult) {
-    BuildValue result = computeCommandResult(system, ti);
-    if (canUpdateIfNewerWithResult(result)) {
-      resultFn(std::move(result));
-      return;
-    }
-  }
+  // NOTE: There used to be a shortcut here which, for a command that allows
+  // modified outputs, only recorded the current state of the outputs when all
+  // of them existed. By the time a command is executed its stored result has
+  // already been found out of date for a reason other than its outputs (those
+  // are accepted by isResultValid()), i.e. an input or the command itself
+  // changed, so the command does have to run.
 
   // Create the directories for the directories containing file outputs.
   //
